@@ -238,8 +238,8 @@ MALFORMED = ["", "bytes=", "bytes=-", "items=0-1", "bytes", "byte=0-1", "0-1", "
 
 
 def gen_cases(ctx, rng):
-    two = 12 if ctx.quick else 120
-    rnd = 6 if ctx.quick else 60
+    two = 12 if ctx.quick else 400
+    rnd = 6 if ctx.quick else 200
     idx = 0
     for chunk in CHUNKS:
         for size in sizes_for(chunk):
@@ -297,7 +297,7 @@ def run(ctx):
     # ---- one response object serving several requests in a row (a response instance is itself an application)
     from baize import asgi, wsgi
     pool = [None, "bytes=0-1", "bytes=1-3", "bytes=0-1,4-5", "bytes=2-", "bytes=-2", "bytes=99999-", "bytes=3-1", "", "bytes=0-0,2-2,4-4"]
-    for i in range(ctx.scale(400, 12_000)):
+    for i in range(ctx.scale(400, 40_000)):
         iface = rng.choice(IFACES)
         size, chunk = rng.choice([(10, 3), (10, 64), (100, 7), (1000, 64)])
         path, data = env.file(size, ".bin")
